@@ -68,6 +68,14 @@ impl std::fmt::Display for Version {
 
 impl SerializableType for Version {
     fn serialize<O: DataOutput>(&self, output: &mut O) -> Result<()> {
+        // The packed format has 8 bits each for major and minor: a larger component would spill into its
+        // neighbour and decode as a different version
+        if self.major > 0xFF || self.minor > 0xFF {
+            return Err(ZiporaError::invalid_data(format!(
+                "version {} does not fit the packed format (major and minor must be <= 255)",
+                self
+            )));
+        }
         output.write_u32(self.to_u32())
     }
     
